@@ -124,6 +124,7 @@ def worker(args):
         solve.discharge_all(ex, mine, timeout_ms, seed)
         for o in mine:
             rec = {'name': o.name, 'kind': o.kind, 'status': o.status, 'time': round(o.time, 4), 'solver': o.solver,
+                   'bounded': (contract.unroll if (contract is not None and contract.unroll) else 0),
                    'line': o.line, 'note': o.note, 'model': o.model}
             if o.status != 'proved' and want_smt:
                 try:
@@ -276,7 +277,7 @@ def main(argv=None):
         trusted.update(r['trusted'])
         for o in r['obligations']:
             n_inst += 1
-            e = agg.setdefault(o['name'], {'instances': 0, 'proved': 0, 'time': 0.0, 'bad': [], 'kind': o['kind']})
+            e = agg.setdefault(o['name'], {'instances': 0, 'proved': 0, 'time': 0.0, 'bad': [], 'kind': o['kind'], 'bounded': o.get('bounded', 0)})
             e['instances'] += 1
             e['time'] += o['time']
             solver_wall += o['time']
@@ -377,8 +378,10 @@ def main(argv=None):
         e = agg[n]
         samples.append({'obligation': n, 'instances': e['instances'], 'proved': e['proved'], 'seconds': round(e['time'], 3)})
     wall = time.time() - t_start
-    n_ob = len(names)
-    n_dis = len([n for n in names if not agg[n]['bad']])
+    # obligations of BOUNDED checks (functions whose contract says `unroll N`) are reported apart and never counted as proved
+    bounded_names = [n for n in names if agg[n].get('bounded')]
+    n_ob = len(names) - len(bounded_names)
+    n_dis = len([n for n in names if not agg[n]['bad'] and not agg[n].get('bounded')])
     level = 'proof'
     evidence = {
         'property_id': prop,
@@ -391,6 +394,12 @@ def main(argv=None):
             'obligation_instances': n_inst,
             'instances_discharged': n_inst_ok,
             'checker_cmd': 'python3-vt -m gocv.check --property %s --tier %s' % (prop, tier),
+            'bounded_checks': {
+                'note': 'NOT proofs: the functions named here are harnesses verified with every loop unrolled up to the stated number of iterations (unwinding assertion included); they stand in where no contract was proved',
+                'obligations': len(bounded_names),
+                'discharged': len([n for n in bounded_names if not agg[n]['bad']]),
+                'bounds': sorted({'%s: loops unrolled up to %d iterations' % (n.split('#')[0], agg[n]['bounded']) for n in bounded_names}),
+            },
             'trusted_base': sorted(trusted) + TRUSTED_ALWAYS,
             'functions_under_contract': [prog.shorten(f) for f in fns],
             'paths': sum(r.get('paths', 0) for r in results),
